@@ -762,7 +762,7 @@ func c09NewWorld(t *testing.T, rep *kit.Report, c *c09Case, base string) (*c09Wo
 	w.srv.Start()
 	addr := w.srv.Listener.Addr().String()
 	w.tr = &http.Transport{Dial: func(network, _ string) (net.Conn, error) { return net.Dial(network, addr) }}
-	w.rc = &Registry{Cache: w.cache, HTTPClient: &http.Client{Transport: w.tr}, MaxStreams: c.MaxStreams, ChunkingThreshold: c.Threshold,
+	w.rc = &Registry{Cache: w.cache, HTTPClient: &http.Client{Transport: c09Stamp{w}}, MaxStreams: c.MaxStreams, ChunkingThreshold: c.Threshold,
 		ReadTimeout: time.Duration(c.ReadTimeoutMs) * time.Millisecond}
 	for si := range c.Steps {
 		for fi := range c.Steps[si].Faults {
@@ -923,6 +923,20 @@ func (w *c09World) observeLink(source string) {
 // ---------------------------------------------------------------------------------------------
 // the fake registry
 
+// c09Stamp marks every request with the attempt it was made in, so that a request of a cancelled
+// attempt that reaches the server late is not mistaken for one of the attempt then running.
+type c09Stamp struct{ w *c09World }
+
+func (s c09Stamp) RoundTrip(r *http.Request) (*http.Response, error) {
+	r2 := r.Clone(r.Context())
+	n := 0
+	if a := s.w.current(); a != nil {
+		n = a.n
+	}
+	r2.Header.Set("X-C09-Attempt", strconv.Itoa(n))
+	return s.w.tr.RoundTrip(r2)
+}
+
 func (w *c09World) current() *c09Attempt {
 	w.mu.Lock()
 	defer w.mu.Unlock()
@@ -976,8 +990,9 @@ func c09Stall(r *http.Request) {
 
 func (w *c09World) serve(rw http.ResponseWriter, r *http.Request) {
 	a := w.current()
-	if a == nil {
-		http.Error(rw, "no attempt in progress", 599)
+	if a == nil || r.Header.Get("X-C09-Attempt") != strconv.Itoa(a.n) {
+		w.rep.Count("stale_requests_of_finished_attempts", 1)
+		http.Error(rw, "request of an attempt that is over", 599)
 		return
 	}
 	pre := "/v2/" + c09NS + "/" + c09Model + "/"
@@ -1235,19 +1250,6 @@ func (w *c09World) serveBlob(a *c09Attempt, rw http.ResponseWriter, r *http.Requ
 // ---------------------------------------------------------------------------------------------
 // running attempts
 
-func c09Covers(rs [][2]int64, size int64) bool {
-	rs = append([][2]int64(nil), rs...)
-	sort.Slice(rs, func(i, j int) bool { return rs[i][0] < rs[j][0] })
-	var next int64
-	for _, r := range rs {
-		if r[0] > next {
-			return false
-		}
-		next = max(next, r[1]+1)
-	}
-	return next >= size
-}
-
 // runGate is the completion-order controller of one attempt: it lets exactly one held chunk response go
 // at a time, after the client went quiet, in the planned order.
 func (w *c09World) runGate(a *c09Attempt, stop <-chan struct{}, done chan<- struct{}) {
@@ -1484,6 +1486,8 @@ func (w *c09World) cause(a *c09Attempt, b int) string {
 		}
 	}
 	switch {
+	case w.c.chunked(b) && p.broken() && lists > 0 && asked == "all-ranges-requested":
+		return "chunk-list-" + p.Kind // everything the broken list named was fetched
 	case listed > 1:
 		return "same-blob-listed-twice:" + asked // two transfers of one blob shared a file
 	case asked == "layer-not-requested" && w.partial[b]:
@@ -1580,11 +1584,9 @@ func (w *c09World) judge(a *c09Attempt, err error) {
 			}
 		}
 		for _, b := range c.blobsOf(a.ver) {
-			if len(w.fetched[b]) > 0 && !c09Covers(w.fetched[b], int64(c.Blobs[b].Size)) {
+			// the failed attempt left a non-empty file that is not the layer
+			if fi, serr := os.Stat(w.cache.GetFile(c.Blobs[b].dig)); serr == nil && fi.Size() > 0 && w.checkBlob(b) != "" {
 				w.partial[b] = true
-			}
-			if len(w.fetched[b]) > 0 && c09Covers(w.fetched[b], int64(c.Blobs[b].Size)) && w.checkBlob(b) != "" {
-				w.partial[b] = true // every range was served once, but not every one was stored
 			}
 		}
 	}
@@ -1609,10 +1611,10 @@ func (w *c09World) doDelete(st *c09Step) {
 	defer w.fsMu.Unlock()
 	w.rc.Unlink(c09FQ)
 	for _, b := range st.Delete {
-		os.Remove(w.cache.GetFile(w.c.Blobs[b].dig))
-		if len(w.fetched[b]) > 0 {
-			w.deletedAfter[b] = true
+		if fi, err := os.Stat(w.cache.GetFile(w.c.Blobs[b].dig)); err == nil && fi.Size() > 0 {
+			w.deletedAfter[b] = true // something of it had been stored, so markers exist
 		}
+		os.Remove(w.cache.GetFile(w.c.Blobs[b].dig))
 		w.fetched[b] = nil
 		w.partial[b] = false
 	}
@@ -1727,7 +1729,7 @@ func c09RunPullCase(t *testing.T, rep *kit.Report, c *c09Case, base string) {
 			rep.Count("enum_"+cls+"_violated", 1)
 		}
 	}
-	if rep.NeedSample() && c.Mode == "random" && len(c.Steps) <= 3 && c.Blobs[0].Size < 6000 {
+	if rep.NeedSample() && len(c.Steps) <= 3 && (c.Blobs[0].Size < 6000 || c.Mode == "enum") {
 		rep.Sample(c)
 	}
 }
@@ -2182,6 +2184,8 @@ func TestVerifC09(t *testing.T) {
 	}
 	base := t.TempDir()
 	only := os.Getenv("VERIF_C09_ONLY")
+	blockViol := map[string]int{}
+	blockCap := map[string]int{"enum": 25, "random": 400, "push": 100}
 	for i := 0; i < total; i++ {
 		if replayIdx >= 0 && i != replayIdx {
 			continue
@@ -2189,20 +2193,26 @@ func TestVerifC09(t *testing.T) {
 		if replayIdx < 0 && !cfg.Mine(i) {
 			continue
 		}
-		if replayIdx < 0 && ((rep.Enough() && os.Getenv("VERIF_C09_NOSTOP") == "") || rep.OverBudget()) {
+		if replayIdx < 0 && rep.OverBudget() {
 			break
 		}
-		if only != "" && replayIdx < 0 { // development aid: run one block only
-			blk := "push"
-			if i < len(enum) {
-				blk = "enum"
-			} else if i < len(enum)+nRandom {
-				blk = "random"
-			}
-			if blk != only {
-				continue
-			}
+		blk := "push"
+		if i < len(enum) {
+			blk = "enum"
+		} else if i < len(enum)+nRandom {
+			blk = "random"
 		}
+		if only != "" && replayIdx < 0 && blk != only { // development aid: run one block only
+			continue
+		}
+		// A block that is already violated many times over is cut short, the others still run: with a
+		// known finding that fires in every other enumerated case, rep.Enough() alone would end the run
+		// before the sampled histories and the push plans were looked at at all.
+		if replayIdx < 0 && blockViol[blk] >= blockCap[blk] && os.Getenv("VERIF_C09_NOSTOP") == "" {
+			rep.Count("cases_skipped_block_"+blk+"_already_violated", 1)
+			continue
+		}
+		before := rep.Violations()
 		r := kit.NewRand(cfg.Seed, "C09", i)
 		rep.Eval(1)
 		switch {
@@ -2213,6 +2223,7 @@ func TestVerifC09(t *testing.T) {
 		default:
 			c09RunPushCase(t, rep, c09GenPush(r, i), base)
 		}
+		blockViol[blk] += rep.Violations() - before
 	}
 	if replayIdx >= 0 {
 		t.Logf("replay of case %d: %d violation(s)", replayIdx, rep.Violations())
